@@ -417,35 +417,120 @@ Example shell_partial_path_ex :
 Proof. vm_compute. repeat split. Qed.
 
 (* ---------------------------------------------------------------------------------------------- *)
-(* The documented rule "shell argument truthy" is false of both has_shell and B609's test. *)
+(* "shell argument truthy": has_shell's ladder computes Python's truth value of every literal whose
+   truth value is static. *)
 
-(* subprocess.Popen('ls', shell=()) / shell='' : falsy in Python, has_shell says True *)
-Definition ex_popen_shell_empty_tuple : ctx :=
-  ex_ctx "subprocess.Popen" (ex_call [ex_str "ls"] [ex_kw "shell" (ex_tuple [])]).
-Definition ex_popen_shell_empty_str : ctx :=
-  ex_ctx "subprocess.Popen" (ex_call [ex_str "ls"] [ex_kw "shell" (ex_str "")]).
-(* subprocess.Popen('chmod 777 *', shell=1): truthy in Python, B609's check_call_arg_value is False *)
+(* specification: bool(<literal>) ; None for anything that is not such a literal *)
+Definition py_truth (v : node) : option bool :=
+  match const_of v with
+  | Some (CInt z) => Some (negb (Z.eqb z 0))
+  | Some (CFloat _ t) => Some t
+  | Some (CComplex _ t) => Some t
+  | Some (CStr s) => Some (match s with [] => false | _ => true end)
+  | Some (CBytes b) => Some (match b with [] => false | _ => true end)
+  | Some (CBool b) => Some b
+  | Some CNone => Some false
+  | Some CEllipsis => Some true
+  | None =>
+      if is_cls "List" v then Some (match field_list "elts" v with [] => false | _ => true end)
+      else if is_cls "Dict" v then Some (match field_list "keys" v with [] => false | _ => true end)
+      else if is_cls "Tuple" v || is_cls "Set" v then
+        Some (match field_list "elts" v with [] => false | _ => true end)
+      else None
+  end.
+
+Lemma const_of_cls v k : const_of v = Some k -> cls_of v = "Constant".
+Proof.
+  destruct v as [c p fs| | | | |]; simpl; try discriminate.
+  destruct (String.eqb c "Constant") eqn:E; [|discriminate].
+  intros _. apply String.eqb_eq. exact E.
+Qed.
+
+Lemma is_cls_cls_of c v : is_cls c v = true -> cls_of v = c.
+Proof.
+  destruct v as [c' p fs| | | | |]; simpl; try discriminate.
+  intro H. apply String.eqb_eq in H. congruence.
+Qed.
+
+Lemma const_not_display v k c :
+  const_of v = Some k -> c <> "Constant" -> is_cls c v = false.
+Proof.
+  intros Hk Hc. destruct (is_cls c v) eqn:E; [|reflexivity].
+  apply is_cls_cls_of in E. apply const_of_cls in Hk. congruence.
+Qed.
+
+Theorem has_shell_truthiness : forall v b, py_truth v = Some b -> shell_value_truth v = b.
+Proof.
+  intros v b. unfold py_truth, shell_value_truth, is_Num, is_Str, is_Bytes, is_NameConstant.
+  destruct (const_of v) as [k|] eqn:Hk.
+  - assert (HL : is_cls "List" v = false) by (eapply const_not_display; eauto; discriminate).
+    assert (HD : is_cls "Dict" v = false) by (eapply const_not_display; eauto; discriminate).
+    assert (HT : is_cls "Tuple" v = false) by (eapply const_not_display; eauto; discriminate).
+    assert (HS : is_cls "Set" v = false) by (eapply const_not_display; eauto; discriminate).
+    assert (HN : is_cls "Name" v = false) by (eapply const_not_display; eauto; discriminate).
+    destruct k; intro H; inversion H; subst; clear H; rewrite ?HL, ?HD, ?HT, ?HS, ?HN; simpl;
+      try reflexivity.
+  - simpl. destruct (is_cls "List" v).
+    + intro H; inversion H. reflexivity.
+    + destruct (is_cls "Dict" v).
+      * intro H; inversion H. reflexivity.
+      * destruct (is_cls "Tuple" v || is_cls "Set" v).
+        -- intro H; inversion H. reflexivity.
+        -- discriminate.
+Qed.
+
+(* subprocess.Popen('ls', shell=()) / shell='' / shell=b'' : falsy, so B603 (not B602) reports them;
+   shell=(0,) / shell='x' are truthy *)
+Definition ex_popen_shell (v : node) : ctx :=
+  ex_ctx "subprocess.Popen" (ex_call [ex_str "ls"] [ex_kw "shell" v]).
+
+Example has_shell_truthiness_ex :
+  py_truth (ex_tuple []) = Some false /\ has_shell (ex_popen_shell (ex_tuple [])) = Ok false /\
+  py_truth (ex_str "") = Some false /\ has_shell (ex_popen_shell (ex_str "")) = Ok false /\
+  py_truth (ex_const (CBytes [])) = Some false /\ has_shell (ex_popen_shell (ex_const (CBytes []))) = Ok false /\
+  py_truth (ex_tuple [ex_const (CInt 0)]) = Some true /\
+  has_shell (ex_popen_shell (ex_tuple [ex_const (CInt 0)])) = Ok true /\
+  py_truth (ex_str "x") = Some true /\ has_shell (ex_popen_shell (ex_str "x")) = Ok true /\
+  py_truth (ex_name "flag") = None /\ has_shell (ex_popen_shell (ex_name "flag")) = Ok true /\
+  b602 ex_cfg (ex_popen_shell (ex_str "")) = Ok None /\
+  b603 ex_cfg (ex_popen_shell (ex_str "")) = Ok (Some (b603_issue (ex_popen_shell (ex_str "")))).
+Proof. vm_compute. repeat split. Qed.
+
+(* ---------------------------------------------------------------------------------------------- *)
+(* B609's shell condition for names of the `subprocess` section is has_shell (value and raises) *)
+
+Theorem wildcard_uses_has_shell : forall cfg c,
+  in_section sec_shell cfg c = Ok false ->
+  in_section sec_subprocess cfg c = Ok true ->
+  b609_applies cfg c = has_shell c /\
+  (b609_cfg_ok cfg = Ok true ->
+     (has_shell c = Ok false -> b609 cfg c = Ok None) /\
+     (forall e, has_shell c = Raise e -> b609 cfg c = Raise e) /\
+     (forall i, b609 cfg c = Ok (Some i) -> has_shell c = Ok true)).
+Proof.
+  intros cfg c Hsh Hsub.
+  assert (Hap : b609_applies cfg c = has_shell c).
+  { unfold b609_applies. rewrite Hsh. cbn [bind]. rewrite Hsub. cbn [bind].
+    destruct (has_shell c); reflexivity. }
+  split; [exact Hap|]. intro Hok. unfold b609. rewrite Hok, Hap. cbn [bind negb].
+  split; [|split].
+  - intros ->. reflexivity.
+  - intros e ->. reflexivity.
+  - intros i. destruct (has_shell c) as [[|]|e]; cbn [bind]; try discriminate. reflexivity.
+Qed.
+
+(* subprocess.Popen('chmod 777 *', shell=1): now reported by B609 as well as B602 *)
 Definition ex_popen_wild_shell_1 : ctx :=
   ex_ctx "subprocess.Popen" (ex_call [ex_str "chmod 777 *"] [ex_kw_at 1 "shell" (CInt 1)]).
 
-Theorem has_shell_truthiness_refuted :
-  (exists c v, field_list "keywords" (c_node c) = [ex_kw "shell" v] /\ v = ex_tuple [] /\
-               has_shell c = Ok true /\
-               b602 ex_cfg c = Ok (Some (b602_issue LOW c)) /\ b603 ex_cfg c = Ok None) /\
-  (exists c v, field_list "keywords" (c_node c) = [ex_kw "shell" v] /\ v = ex_str "" /\
-               has_shell c = Ok true /\
-               b602 ex_cfg c = Ok (Some (b602_issue LOW c)) /\ b603 ex_cfg c = Ok None) /\
-  (exists c, field_list "keywords" (c_node c) = [ex_kw_at 1 "shell" (CInt 1)] /\
-             has_shell c = Ok true /\
-             check_call_arg_value c (s2p "shell") [PStr (s2p "True")] = Ok (Some false) /\
-             wildcard_hit (s2p "chmod 777 *") = true /\
-             b602 ex_cfg c = Ok (Some (b602_issue LOW c)) /\ b609 ex_cfg c = Ok None).
-Proof.
-  split; [|split].
-  - exists ex_popen_shell_empty_tuple, (ex_tuple []). vm_compute. repeat split.
-  - exists ex_popen_shell_empty_str, (ex_str ""). vm_compute. repeat split.
-  - exists ex_popen_wild_shell_1. vm_compute. repeat split.
-Qed.
+Example wildcard_uses_has_shell_ex :
+  in_section sec_shell ex_cfg ex_popen_wild_shell_1 = Ok false /\
+  in_section sec_subprocess ex_cfg ex_popen_wild_shell_1 = Ok true /\
+  b609_cfg_ok ex_cfg = Ok true /\
+  has_shell ex_popen_wild_shell_1 = Ok true /\
+  b609 ex_cfg ex_popen_wild_shell_1 = Ok (Some (b609_issue ex_popen_wild_shell_1)) /\
+  b602 ex_cfg ex_popen_wild_shell_1 = Ok (Some (b602_issue LOW ex_popen_wild_shell_1)).
+Proof. vm_compute. repeat split. Qed.
 
 (* has_shell lets the *last* `shell` keyword decide while the reported line is the *first* one's.
    Reachable from source text: ast.parse accepts f('ls', shell=True, shell=False) -- only compile()
@@ -479,5 +564,6 @@ Example has_shell_raises :
   has_shell ex_popen_unhashable_kw = Raise TypeError /\
   b602 ex_cfg ex_popen_unhashable_kw = Raise TypeError /\
   b603 ex_cfg ex_popen_unhashable_kw = Raise TypeError /\
+  b609 ex_cfg ex_popen_unhashable_kw = Raise TypeError /\
   b604 ex_cfg ex_wrapper_true = Ok (Some (b604_issue ex_wrapper_true)).
 Proof. vm_compute. repeat split. Qed.
